@@ -49,7 +49,8 @@ theorem inv_job_mkJournal {cfg : Cfg} {s : St} {d : Disk} (h : Inv cfg s d) {j :
     obtain ⟨hnlt, hall⟩ := hmk
     have hnd := sorted_nodup h.disk.jsorted
     have hnr : ∀ m, j.pc ≠ .rotRemove m := by rw [hpc]; intro m hm; cases hm
-    have hfd := (h.mfd hj).fd hj hnr
+    have hl : s.limbo = none := h.limbo_none_of_recovering (by rw [hph]; decide)
+    have hfd := (h.mfd hj).fd hj hnr hl
     let j' : Job := { j with pc := .append }
     let d1 : Disk := { d with journals := d.journals.set n {} }
     have hmem : ∀ p, p ∈ d1.journals ↔ p = (n, {}) ∨ (p ∈ d.journals ∧ p.1 ≠ n) := fun p => mem_set hnd
@@ -111,7 +112,9 @@ theorem inv_job_mkJournal {cfg : Cfg} {s : St} {d : Disk} (h : Inv cfg s d) {j :
       rw [hph] at this; cases this
     · show JobOK cfg _ d1 j'
       obtain ⟨h1, h2, h3, h4, h5, h6, h7, h8, h9, h10, h11, h12⟩ := hok
-      refine ⟨h1, ?_, ?_, ⟨h4.1, fun _ => h4.2 (by rw [hpc]; rfl)⟩, h5, ?_, trivial, ?_, ?_, (fun hx => by
+      refine ⟨h1, ?_, ?_, ⟨h4.1, fun _ => (h4.2 (by rw [hpc]; rfl)).imp (fun mf hmf k hk => (hmf k hk).imp
+        (fun v hv => ⟨fun o ho => Or.inl ((hv.1 o ho).resolve_right (fun hx => by
+          have := hx.2.1; rw [hl] at this; cases this)), hv.2⟩))⟩, h5, ?_, trivial, ?_, ?_, (fun hx => by
         have : j.edit = none := hx
         rw [he] at this; cases this), ?_, (fun hx => by cases hx)⟩
       rotate_right
